@@ -273,6 +273,27 @@ theorem C20_interleaved (ds0 : Ds α G) (ops : List SessOp) :
   rw [hm, stream_add, List.getElem?_append_left (by rw [stream_length]; exact Nat.lt_succ_self _)]
   exact epochOf_eq_stream R ds0 it.epoch
 
+/-- Whatever was done with the dataset object before — epochs consumed, iterators left half
+    way, closed or dropped (`SessOp.close`), fast-forwards — the epoch a NEW iterator yields is
+    the next one of the seed's stream: epoch number `draws`, where `draws` counts the permutations
+    drawn so far.  An abandoned epoch is never handed out again and never shifts the stream. -/
+theorem C20_abandoned_keeps_stream (ds0 : Ds α G) (ops : List SessOp) :
+    let r := Sess.run R (Sess.init ds0) ops
+    (Ds.stream R (r.1.draws + 1) ds0)[r.1.draws]? = some (r.1.ds.iter R).1 := by
+  intro r
+  have hinv : SessInv R ds0 r.1 := sessInv_run R ds0 ops _ (sessInv_init R ds0)
+  rw [epochOf_eq_stream, hinv.ds_eq]
+  rfl
+
+/-- Giving an iterator up changes nothing but that iterator: the dataset, the number of draws and
+    every other iterator are as they were, and the iterator itself yields nothing more. -/
+theorem C20_close_step (s : Sess α G) (j : Nat) :
+    (s.step R (.close j)).1.ds = s.ds ∧ (s.step R (.close j)).1.draws = s.draws ∧
+    (s.step R (.close j)).1.iters = s.iters ∧
+    ((s.step R (.close j)).1.step R (.next j)) = ((s.step R (.close j)).1, .stop) := by
+  refine ⟨rfl, rfl, rfl, ?_⟩
+  simp [Sess.step]
+
 end stream
 
 /-! ## the replay-buffer dataset -/
@@ -402,6 +423,15 @@ example :
       [.mk, .next 0, .mk, .ff 1, .next 1, .next 1, .next 1, .next 0, .next 0]
     batchesOf 0 r.2 = [[[12, 13], [144, 169]], [[10, 11], [100, 121]]] ∧
     batchesOf 1 r.2 = (Ds.stream exRNG 3 (Ds.init exRNG exCfg))[2]?.getD [] ∧
+    r.1.draws = 3 := by decide +kernel
+
+/-- an iterator abandoned after one batch (and one closed before it ever started): the next two
+    iterators yield epochs 1 and 2 of the stream, nothing is replayed -/
+example :
+    let r := Sess.run exRNG (Sess.init (Ds.init exRNG exCfg))
+      [.mk, .next 0, .close 0, .next 0, .mk, .close 1, .next 1, .mk, .next 2, .next 2, .next 2, .mk, .next 3]
+    batchesOf 0 r.2 = [[[12, 13], [144, 169]]] ∧ batchesOf 1 r.2 = [] ∧
+    batchesOf 2 r.2 = (Ds.stream exRNG 3 (Ds.init exRNG exCfg))[1]?.getD [] ∧
     r.1.draws = 3 := by decide +kernel
 
 /-- two replay-buffer batches of widths 2 and 3 with one other column -/
